@@ -32,7 +32,7 @@ ASSUME = [
     "the server is a byte stream plus the point where reads start failing and the write that fails; timeoutread/timeoutwrite return 0/-1 there (select/read/write themselves are not modelled)",
     "substdio buffering is transparent (several read chunkings are run); the position of buffer-full flushes inside the body is observed, not modelled",
     "main() is run from dns_mxip's return value on: control files (helohost me.example, no smtproutes), the resolver, ipme, tcpto's file and connect() are scripted answers; addrmangle is run on plain addresses only",
-    "the model is told on which side of 'flagcritical = 1' a failing write inside blast() happened (the 1024-byte buffering of smtpto is not modelled); the oracle does not use that label",
+    "the 1024-byte buffering of smtpto is not modelled: for a failing write inside blast() the driver computes from the bytes of that write (never from the client's flagcritical) whether it was issued after 'flagcritical = 1' (model input: all but at most the 3-byte terminator has then been written) and whether it carries the last byte of the encoded message (oracle: duplicate flag required)",
     "open finding C09-quit-write-failure (a failing QUIT write replaces a decided K or D by 'Z connection died'): the oracle is strict there; exactly these cases are tagged by the driver and reported as KNOWN-FINDING once the entry is in known_findings.json (VIOLATION until then)",
     "report() is called with the complete output and the wait status of qmail-remote (spawn.c main loop not modelled); in the harness the collected output is followed by '!' NUL and an ASan red zone, so any read past its end is visible",
     "unsigned long is 64 bits (the verdict comparisons are width-independent, Nq.Lemmas.RemoteSmtp)",
